@@ -204,7 +204,11 @@ func units(tier string) []engine.Unit {
 		return age.EqualRank
 	}
 	add("int", func(r *engine.Rec) {
-		run(r, &cfg[int]{name: "int", universe: []int{-3, 0, 1, 2, 10, 11}, class: func(v int) string { return fmt.Sprint(v) }})
+		u := []int{-3, 0, 1, 2, 10, 11}
+		if tier == "thorough" {
+			u = append(u, 12, 100)
+		}
+		run(r, &cfg[int]{name: "int", universe: u, class: func(v int) string { return fmt.Sprint(v) }})
 	})
 	add("string", func(r *engine.Rec) {
 		run(r, &cfg[string]{name: "string", universe: []string{"", "a", "ab", "b", "c", "ca"}, class: func(v string) string { return fmt.Sprintf("%q", v) }})
